@@ -16,6 +16,7 @@ package processor
 import (
 	"context"
 	"fmt"
+	"net/url"
 	"sort"
 	"strings"
 	"sync"
@@ -49,7 +50,7 @@ type c33Plan struct {
 	Clean     int   // fault-free cycles afterwards
 	Faults    map[c33FaultKey]string
 	Lfs       map[int64]bool          // offsets whose value is an LFS envelope (iceberg only)
-	LfsFaults map[[2]int64]bool       // (cycle, offset) -> blob fetch fails
+	LfsFaults map[[2]int64]string     // (cycle, offset) -> kind of error the blob fetch returns (see c33LfsErr)
 	Excluded  map[string]bool         // known-finding ids this plan was steered away from
 	StickyF1  bool                    // after a segment-level failure, fail the rest of the cycle (exclusion of the skip-failed-segment finding)
 }
@@ -63,6 +64,29 @@ func c33SkipID(mod string) string { return "C33-" + mod + "-skip-failed-segment"
 func c33NoopID(mod string) string { return "C33-" + mod + "-noop-store-offset0" }
 func c33LfsID(mod string) string  { return "C33-" + mod + "-lfs-failure-drops-record" }
 
+// Kinds of error a blob download can fail with while the processor's own context is alive:
+// a plain S3 error, a client-side timeout (context.DeadlineExceeded, bare, wrapped the way
+// the SDK / net/http wrap it) and an interrupted attempt (context.Canceled, bare or wrapped).
+// All of them are transient: the record must be retried, not dropped.
+var c33LfsKinds = []string{"plain", "deadline", "canceled", "wrapped-deadline", "wrapped-canceled", "url-timeout", "plain", "deadline"}
+
+func c33LfsErr(kind string) error {
+	switch kind {
+	case "deadline":
+		return context.DeadlineExceeded
+	case "canceled":
+		return context.Canceled
+	case "wrapped-deadline":
+		return fmt.Errorf("operation error S3: GetObject, https response error StatusCode: 0, RequestID: , request send failed: %w", context.DeadlineExceeded)
+	case "wrapped-canceled":
+		return fmt.Errorf("operation error S3: GetObject, canceled attempt: %w", context.Canceled)
+	case "url-timeout":
+		return &url.Error{Op: "Get", URL: "http://s3.local/b/blob", Err: context.DeadlineExceeded}
+	default:
+		return errC33Injected
+	}
+}
+
 // weighted choices (rapid favours early entries a little, hence "none" first)
 var (
 	c33CycleFaults = []string{"none", "none", "none", "none", "none", "none", "none", "none", "list", "claim", "none", "none"}
@@ -71,7 +95,7 @@ var (
 
 // c33GenPlan draws a plan. withLfs enables LFS envelopes (iceberg).
 func c33GenPlan(t *rapid.T, mod string, withLfs bool) c33Plan {
-	p := c33Plan{Mod: mod, Faults: map[c33FaultKey]string{}, Lfs: map[int64]bool{}, LfsFaults: map[[2]int64]bool{}, Excluded: map[string]bool{}, Clean: 2}
+	p := c33Plan{Mod: mod, Faults: map[c33FaultKey]string{}, Lfs: map[int64]bool{}, LfsFaults: map[[2]int64]string{}, Excluded: map[string]bool{}, Clean: 2}
 	p.Store = rapid.SampledFrom([]string{"real", "real", "real", "real", "real", "noop"}).Draw(t, "store")
 	p.Start = rapid.SampledFrom([]int64{0, 0, 0, 1, 7, 1000}).Draw(t, "start")
 	if p.Store == "noop" && p.Start == 0 && vfkit.Known(c33NoopID(mod)) {
@@ -122,7 +146,7 @@ func c33GenPlan(t *rapid.T, mod string, withLfs bool) c33Plan {
 						if vfkit.Known(c33LfsID(mod)) {
 							p.Excluded[c33LfsID(mod)] = true
 						} else {
-							p.LfsFaults[[2]int64{int64(c), o}] = true
+							p.LfsFaults[[2]int64{int64(c), o}] = rapid.SampledFrom(c33LfsKinds).Draw(t, "lfs-error-kind")
 						}
 					}
 				}
@@ -244,28 +268,47 @@ func (w *c33World) OnLoad() (int64, error) {
 	return w.committed, nil
 }
 
-func (w *c33World) OnDecode(key string) (c33Seg, error) {
+// OnDecode reports a Decode call. A "before" fault fails here (the fake decoder just returns
+// the error). Any other fault kind (e.g. "truncate", "http503": faults that are played against
+// a real decoder) is handed back to the module's decoder, which calls DecodeFailed if the real
+// decoder reported an error.
+func (w *c33World) OnDecode(key string) (seg c33Seg, idx int, cycle int, fault string, err error) {
 	w.mu.Lock()
 	defer w.mu.Unlock()
 	for i, s := range w.p.Segs {
 		if s.Key == key {
-			if w.fault(i, "decode") != "" {
+			f := w.fault(i, "decode")
+			if f == "before" {
 				w.segFailed(i, "decode")
-				return s, errC33Injected
+				return s, i, w.cycle, f, errC33Injected
 			}
-			return s, nil
+			return s, i, w.cycle, f, nil
 		}
 	}
 	w.violations = append(w.violations, "harness: decode of unknown segment key "+key)
-	return c33Seg{}, fmt.Errorf("unknown segment")
+	return c33Seg{}, -1, w.cycle, "", fmt.Errorf("unknown segment")
+}
+
+func (w *c33World) DecodeFailed(idx int, how string) {
+	w.mu.Lock()
+	defer w.mu.Unlock()
+	w.segFailed(idx, "decode-"+how)
+}
+
+func (w *c33World) Note(format string, a ...any) {
+	w.mu.Lock()
+	defer w.mu.Unlock()
+	w.note(format, a...)
 }
 
 func (w *c33World) OnLfsFetch(offset int64) error {
 	w.mu.Lock()
 	defer w.mu.Unlock()
-	if w.cycle < w.p.Cycles && w.p.LfsFaults[[2]int64{int64(w.cycle), offset}] {
-		w.note("lfs-fail(%d)", offset)
-		return errC33Injected
+	if w.cycle < w.p.Cycles {
+		if kind := w.p.LfsFaults[[2]int64{int64(w.cycle), offset}]; kind != "" {
+			w.note("lfs-fail-%s(%d)", kind, offset)
+			return c33LfsErr(kind)
+		}
 	}
 	return nil
 }
@@ -356,8 +399,8 @@ func (p *c33Plan) describe() map[string]any {
 	for k, v := range p.Faults {
 		fs = append(fs, fmt.Sprintf("c%d/seg%d/%s/%s", k.Cycle, k.Seg, k.Site, v))
 	}
-	for k := range p.LfsFaults {
-		fs = append(fs, fmt.Sprintf("c%d/lfs@%d", k[0], k[1]))
+	for k, v := range p.LfsFaults {
+		fs = append(fs, fmt.Sprintf("c%d/lfs@%d/%s", k[0], k[1], v))
 	}
 	sort.Strings(fs)
 	var segs []string
@@ -400,11 +443,15 @@ func c33Check(rt *rapid.T, t *testing.T, st *vfkit.Stats, p c33Plan, exec func(t
 	if len(p.Faults)+len(p.LfsFaults) == 0 {
 		st.Class("no-faults")
 	}
-	for k := range p.Faults {
-		st.Class("fault:" + k.Site)
+	for k, v := range p.Faults {
+		if k.Site == "decode" && v != "before" {
+			st.Class("fault:decode-" + v)
+		} else {
+			st.Class("fault:" + k.Site)
+		}
 	}
-	if len(p.LfsFaults) > 0 {
-		st.Class("fault:lfs")
+	for _, kind := range p.LfsFaults {
+		st.Class("fault:lfs-" + kind)
 	}
 	if w.f1Shape {
 		st.Class("failure-then-later-segment-written")
@@ -439,7 +486,7 @@ func c33Check(rt *rapid.T, t *testing.T, st *vfkit.Stats, p c33Plan, exec func(t
 // world / oracle (no steering) and records whether it still fails.
 func c33Witnesses(t *testing.T, st *vfkit.Stats, mod string, withLfs bool, exec func(t *testing.T, p *c33Plan, w *c33World) error) {
 	mk := func(store string, sizes ...int) c33Plan {
-		p := c33Plan{Mod: mod, Store: store, Faults: map[c33FaultKey]string{}, Lfs: map[int64]bool{}, LfsFaults: map[[2]int64]bool{}, Excluded: map[string]bool{}, Cycles: 1, Clean: 2}
+		p := c33Plan{Mod: mod, Store: store, Faults: map[c33FaultKey]string{}, Lfs: map[int64]bool{}, LfsFaults: map[[2]int64]string{}, Excluded: map[string]bool{}, Cycles: 1, Clean: 2}
 		off := int64(0)
 		for _, n := range sizes {
 			p.Segs = append(p.Segs, c33Seg{Base: off, N: n, Key: fmt.Sprintf("seg-%020d", off)})
@@ -478,7 +525,7 @@ func c33Witnesses(t *testing.T, st *vfkit.Stats, mod string, withLfs bool, exec 
 	if withLfs {
 		p3 := mk("real", 3)
 		p3.Lfs[1] = true
-		p3.LfsFaults[[2]int64{0, 1}] = true
+		p3.LfsFaults[[2]int64{0, 1}] = "plain"
 		run(c33LfsID(mod), p3, "segment [0..2], record 1 is an LFS envelope whose blob fetch fails once in cycle 0")
 	}
 }
